@@ -120,4 +120,7 @@ def units(ctx):
            for c in cc.memorize_contracts()]
     us += pyvc_units(utils.contracts(), 'C14', utils.setup)
     us += pyvc_units(yaqltypes.contracts(), 'C14', yaqltypes.setup)
+    from contracts import utils as _ut
+    from vlib.pyvc.unit import contract_unit as _cu2
+    us += [_cu2(c, world_setup=_ut.setup) for c in _ut.predicate_contracts()]
     return us
